@@ -462,6 +462,24 @@ def r02_4(chk, so):
     app = [e for e in ev.events if e.kind == "call" and e.target is not None and e.target.key() == f"{kept}.append"]
     chk.ob("R02.4", SO, q, "a candidate is kept only when no coset member is already kept",
            len(app) == 1 and app[0].extra["args"][0].key() == cand.key(), found=str(app[0].value) if app else None)
+    # ... and for no other reason is it left out: every condition on the way to the append is a membership test against the kept list (or
+    # the lattice's inversion flag in front of one); a filter on the operation itself (its rotation, its translation) drops generators
+    # the description needs (B-centred settings tabulated as primitive carry x+1/2,y,z+1/2 as an operation)
+    if len(app) == 1:
+        other = []
+        for c, pol in app[0].guards:
+            k = c.key()
+            if (c.as_atom() or ("",))[0] == "in" and c.as_atom()[2].key() == kept.key():
+                continue
+            if k.startswith("(nobreak") or "lt 0 lattice_type" in k or k in ("inversion",):
+                continue
+            if (c.as_atom() or ("",))[0] in ("and", "or") and all(((x.as_atom() or ("",))[0] == "in" and x.as_atom()[2].key() == kept.key())
+                                                                     or "lt 0 lattice_type" in x.key() for x in c.as_atom()[1]):
+                continue
+            if cand.key() in k:
+                other.append(f"{'' if pol else 'not '}{c}"[:100])
+        chk.ob("R02.4", SO, q, "an operation is left out of the reduced list only because a member of its coset is already kept (no filter on the "
+               "operation itself)", not other, node=app[0].node, fingerprint="only-coset-filter", found=other)
 
 
 def r02_5(chk, sg, decoded, fidx):
